@@ -20,19 +20,12 @@ package memverif
 import (
 	"encoding/json"
 	"errors"
-<<<<<<< HEAD
-	"fmt"
-=======
->>>>>>> c16
 	"sort"
 	"strconv"
 	"sync"
 	"time"
 
-<<<<<<< HEAD
-=======
 	dbif "github.com/tinode/chat/server/db"
->>>>>>> c16
 	"github.com/tinode/chat/server/store"
 	t "github.com/tinode/chat/server/store/types"
 )
@@ -692,13 +685,6 @@ func ResetCallLog() {
 	a.calls = nil
 }
 
-<<<<<<< HEAD
-func init() {
-	store.RegisterAdapter(theAdapter)
-}
-
-var _ = fmt.Sprint
-=======
 // Instance returns the adapter object registered with the store, for harness
 // code which wants to call adapter methods directly.
 func Instance() dbif.Adapter {
@@ -708,4 +694,3 @@ func Instance() dbif.Adapter {
 func init() {
 	store.RegisterAdapter(theAdapter)
 }
->>>>>>> c16
